@@ -24,7 +24,7 @@ def run(c):
     #     valid block, waiting for a POL, next height, commit without block): invariants on every state,
     #     every transition replayed on a real node
     d = nc.env_bfs(c, table, 2, 2, "bfs2-prefixes", prefixes=True)
-    g = c.gotest("node", "TestEnvReplay", env=dict(NODE_DUMP=d, NODE_ME=2, NODE_LASTONLY=1, NODE_STRIDE=(1 if th else 5)),
+    g = c.gotest("node", "TestEnvReplay", env=dict(NODE_DUMP=d, NODE_ME=2, NODE_LASTONLY=1, NODE_STRIDE=(1 if th else int(os.environ.get("VERIF_NODE_STRIDE", "10")))),
                  timeout=6000, tag="replay bfs depth 2 from all start states")
     c.absorb(g)
     os.remove(d)
@@ -35,21 +35,23 @@ def run(c):
             c.absorb(g)
             os.remove(d)
     # deeper, without dump: the obligations on every reachable state
-    nc.env_bfs(c, table, 2, 3, "bfs3-prefixes-inv", dump=False, prefixes=True, timeout=6000)
     if th:
+        nc.env_bfs(c, table, 2, 3, "bfs3-prefixes-inv", dump=False, prefixes=True, timeout=6000)
         nc.env_bfs(c, table, 2, 4, "bfs4-inv", dump=False, timeout=6000)
+    else:
+        nc.env_bfs(c, table, 2, 3, "bfs3-inv", dump=False, timeout=6000)
     # (b) weighted random walks from the start states
-    d = nc.env_walks(c, table, 2, (600 if th else 40), 40, c.seed * 100 + 2, "walks-prefixes", prefixes=True)
+    d = nc.env_walks(c, table, 2, (600 if th else 20), 40, c.seed * 100 + 2, "walks-prefixes", prefixes=True)
     g = c.gotest("node", "TestEnvReplay", env=dict(NODE_DUMP=d, NODE_ME=2), timeout=6000, tag="replay walks from all start states")
     c.absorb(g)
     os.remove(d)
     for me in (1, 3, 4):
-        d = nc.env_walks(c, table, me, (300 if th else 15), 50, c.seed * 100 + me, "walks-me%d" % me)
+        d = nc.env_walks(c, table, me, (300 if th else 8), 50, c.seed * 100 + me, "walks-me%d" % me)
         g = c.gotest("node", "TestEnvReplay", env=dict(NODE_DUMP=d, NODE_ME=me), timeout=6000, tag="replay walks me=%d" % me)
         c.absorb(g)
         os.remove(d)
     # three block ids, higher rounds
-    d = nc.env_walks(c, table, 3, (300 if th else 15), 60, c.seed * 100 + 9, "walks-3bids", maxround=4, bids='{"A", "B", "X"}')
+    d = nc.env_walks(c, table, 3, (300 if th else 8), 60, c.seed * 100 + 9, "walks-3bids", maxround=4, bids='{"A", "B", "X"}')
     g = c.gotest("node", "TestEnvReplay", env=dict(NODE_DUMP=d, NODE_ME=3), timeout=6000, tag="replay walks 3 bids")
     c.absorb(g)
     os.remove(d)
